@@ -236,4 +236,49 @@ def scan (d : DirSpec) (path : Bytes) (o : ListOpts) : Except Err (List Seq) :=
       | .error e => .error e
       | .ok seqs => .ok (files ++ seqs)
 
+/-! ### The pattern lookup (`findSequenceOnDisk`, fileseq.cpp)
+
+  The pattern is parsed with the caller's style; the directory of the pattern is scanned with the
+  pattern as a template — and with the DEFAULT options and the DEFAULT pad style, whatever the
+  caller's style is; the first result with the pattern's basename and extension is switched to the
+  caller's style and returned. -/
+
+/-- the frame-number test of the template branch: an optional '-', one or more digits and nothing
+    else, and no ERANGE from `strtol` -/
+def isFrameTok (r : Bytes) : Bool :=
+  let ds := match r with | '-' :: t => t | _ => r
+  !ds.isEmpty && ds.all isDigit && (atoi r).isSome
+
+/-- the first pass with a template: "glob" `<basename>*<ext>`, the middle must be a frame number -/
+def scanT (o : ListOpts) (t : Seq) : List Entry → List CInfo → Except Err (List CInfo)
+  | [], bs => .ok bs
+  | e :: rest, bs =>
+    if e.kind = .dir then scanT o t rest bs
+    else if !o.hidden ∧ isPrefixOf ['.'] e.name then scanT o t rest bs
+    else if e.kind = .dangling then .error .io
+    else if e.kind = .linkDir then scanT o t rest bs
+    else if isPrefixOf t.base e.name ∧ isSuffixOf t.ext e.name ∧
+            t.base.length + t.ext.length ≤ e.name.length then
+      let mid := (e.name.drop t.base.length).take (e.name.length - t.base.length - t.ext.length)
+      if isFrameTok mid then scanT o t rest (addFrame o.style t.base t.ext mid bs)
+      else scanT o t rest bs
+    else scanT o t rest bs
+
+/-- `findSequenceOnDisk(pattern, style, &status)`; `.ok none` = no match (also for a pattern the
+    constructor rejects) -/
+def find (lookup : Bytes → DirSpec) (pattern : Bytes) (st : PadStyle) : Except Err (Option Seq) :=
+  match Seq.parse st pattern with
+  | .error _ => .ok none
+  | .ok fs =>
+    match lookup fs.dir with
+    | none => .error .io
+    | some entries =>
+      match scanT { single := false, hidden := false, style := .hash4 } fs entries [] with
+      | .error e => .error e
+      | .ok bs =>
+        match bucketsOut .hash4 (rootOf fs.dir) bs with
+        | .error e => .error e
+        | .ok seqs =>
+          .ok ((seqs.find? fun s => s.base = fs.base ∧ s.ext = fs.ext).map fun s => s.setPaddingStyle st)
+
 end Gfs.Cpp
